@@ -364,9 +364,17 @@ func (a *Analyzer) Analyze(fragments []text.TextFragment, pageWidth, pageHeight 
 		result.Stats.ParagraphCount = len(result.Paragraphs.Paragraphs)
 	}
 
+	// Headings and lists are detected on the paragraphs of step 5, not on a
+	// second, independent grouping of the fragments: the element tree needs
+	// to know exactly which paragraph a heading or list item stands for.
+	var paragraphs []Paragraph
+	if result.Paragraphs != nil {
+		paragraphs = result.Paragraphs.Paragraphs
+	}
+
 	// Step 6: Heading detection
 	if a.config.DetectHeadings {
-		result.Headings = a.headingDetector.DetectFromFragments(fragments, pageWidth, pageHeight)
+		result.Headings = a.headingDetector.DetectFromParagraphs(paragraphs, pageWidth, pageHeight)
 		if result.Headings != nil {
 			result.Stats.HeadingCount = len(result.Headings.Headings)
 		}
@@ -374,7 +382,7 @@ func (a *Analyzer) Analyze(fragments []text.TextFragment, pageWidth, pageHeight 
 
 	// Step 7: List detection
 	if a.config.DetectLists {
-		result.Lists = a.listDetector.DetectFromFragments(fragments, pageWidth, pageHeight)
+		result.Lists = a.listDetector.DetectFromParagraphs(paragraphs, pageWidth, pageHeight)
 		if result.Lists != nil {
 			result.Stats.ListCount = len(result.Lists.Lists)
 		}
@@ -388,37 +396,15 @@ func (a *Analyzer) Analyze(fragments []text.TextFragment, pageWidth, pageHeight 
 }
 
 // buildElementTree creates a unified element tree from all detected components.
-// It merges headings, lists, and paragraphs, avoiding duplicates where elements
-// overlap, and sorts them into reading order.
+// Headings and list items are paragraphs of result.Paragraphs that were
+// recognised as such (Heading.Index and ListItem.paraIndex name the paragraph),
+// so every paragraph ends up in exactly one element: in a list, else as a
+// heading, else as a plain paragraph.
 func (a *Analyzer) buildElementTree(result *AnalysisResult) []LayoutElement {
 	var elements []LayoutElement
 
 	// Track which paragraphs have been consumed by headings or lists
 	consumedParaIndices := make(map[int]bool)
-
-	// Add headings
-	if result.Headings != nil {
-		for i, heading := range result.Headings.Headings {
-			elem := LayoutElement{
-				Type:    model.ElementTypeHeading,
-				BBox:    heading.BBox,
-				Text:    heading.Text,
-				Index:   i,
-				Heading: &heading,
-				Lines:   heading.Lines,
-			}
-			elements = append(elements, elem)
-
-			// Mark overlapping paragraphs as consumed
-			if result.Paragraphs != nil {
-				for j, para := range result.Paragraphs.Paragraphs {
-					if bboxOverlaps(heading.BBox, para.BBox) {
-						consumedParaIndices[j] = true
-					}
-				}
-			}
-		}
-	}
 
 	// Add lists
 	if result.Lists != nil {
@@ -431,15 +417,26 @@ func (a *Analyzer) buildElementTree(result *AnalysisResult) []LayoutElement {
 				List:  &list,
 			}
 			elements = append(elements, elem)
+			markListParagraphs(list.Items, consumedParaIndices)
+		}
+	}
 
-			// Mark overlapping paragraphs as consumed
-			if result.Paragraphs != nil {
-				for j, para := range result.Paragraphs.Paragraphs {
-					if bboxOverlaps(list.BBox, para.BBox) {
-						consumedParaIndices[j] = true
-					}
-				}
+	// Add headings (a numbered heading that became an item of a list stays in the list)
+	if result.Headings != nil {
+		for i, heading := range result.Headings.Headings {
+			if consumedParaIndices[heading.Index] {
+				continue
 			}
+			elem := LayoutElement{
+				Type:    model.ElementTypeHeading,
+				BBox:    heading.BBox,
+				Text:    heading.Text,
+				Index:   i,
+				Heading: &heading,
+				Lines:   heading.Lines,
+			}
+			elements = append(elements, elem)
+			consumedParaIndices[heading.Index] = true
 		}
 	}
 
@@ -471,6 +468,15 @@ func (a *Analyzer) buildElementTree(result *AnalysisResult) []LayoutElement {
 	}
 
 	return elements
+}
+
+// markListParagraphs records the paragraphs that the items of a list (nested
+// items included) were made from.
+func markListParagraphs(items []ListItem, consumed map[int]bool) {
+	for _, item := range items {
+		consumed[item.paraIndex] = true
+		markListParagraphs(item.Children, consumed)
+	}
 }
 
 // getListText extracts all text from a list by concatenating item prefixes and text.
